@@ -43,7 +43,7 @@ St == [
   bank   |-> bank,
   supply |-> [d \in AllD |-> SumOver(Accts, LAMBDA a : bank[a][d])],
   amm    |-> [pools |-> [p \in PoolIds |->
-                [addr |-> PoolAddr(p), shares |-> pools[p].shares, shareDenom |-> ShareOf(p), useOracle |-> FALSE,
+                [addr |-> PoolAddr(p), treasury |-> "treasury:" \o p, shares |-> pools[p].shares, shareDenom |-> ShareOf(p), useOracle |-> FALSE,
                  assets |-> [d \in Denoms |-> [amt |-> pools[p].res[d], weight |-> 1, weightI |-> 1]]]],
              denomLiq |-> [d \in Denoms |-> SumOver(PoolIds, LAMBDA p : pools[p].res[d])],
              queue |-> 0],
@@ -53,7 +53,8 @@ St == [
   stable |-> [totalValue |-> vault, depositDenom |-> "uusdc", shareDenom |-> VShare, debts |-> << >>],
   lev    |-> [pools |-> << >>, positions |-> << >>, openCount |-> 0],
   perp   |-> [pools |-> << >>, mtps |-> << >>, openCount |-> 0, tpFlag |-> FALSE],
-  acc    |-> << >> ]
+  acc    |-> << >>,
+  mc     |-> [user |-> << >>, accPerShare |-> << >>, incentives |-> << >>, stablePoolId |-> "32767"] ]
 
 NoGhost == GhostInit(St)
 
